@@ -1,9 +1,11 @@
 """C04 correspondence (Tie B): Model/Frame.v vs the implementation.
   frame_of   (window arguments -> (kind,start,end))      vs the frame of RQ `Compute.window` (transforms.rs, flatten.rs, lowering.rs)
   emit_frame (elision + bound signs -> frame clause text) vs the text inside OVER (...) of the emitted SQL (gen_expr.rs)
+  frame_of = WEmptyRange arg                              vs the compile error `window: `arg` is an empty range ...` (/repo 7b31f75)
+  scope_run  (partition / frame handed to a column)      vs RQ `Compute.window` of nested group / window / join programs (flatten.rs, 592b6f8)
 Exhaustive over kinds x bounds {open,-2..2}^2 (incl. empty ranges) x sorted/unsorted x grouped/ungrouped x
 {function with window_frame=true, function without, ranking function} + rolling -1..3 + expanding + argument
-combinations (which argument wins)."""
+combinations (which argument wins, rejection in front of expanding / rolling)."""
 import json
 import re
 
@@ -13,6 +15,7 @@ from .c04_e2e import over_clauses
 HEADER = ("From Coq Require Import List ZArith NArith.\nFrom PV Require Import Lib.ListX Model.Rel Model.Frame.\n"
           "Import ListNotations.\nLocal Open Scope Z_scope.\n")
 B = [None, -2, -1, 0, 1, 2]
+EMPTY_RANGE_MSG = "window: `%s` is an empty range (its start is after its end)"     # pinned in the source by gen_window.extract_transforms
 
 
 def rb(x, paren):
@@ -61,6 +64,25 @@ def arg_sets(thorough):
     add(rolling=2, expanding=True)
     add(rows=(None, None), rolling=0)
     add(range_=(None, 0), rolling=-2)
+    # the edges of i64 (222f71a: the PRECEDING distance is |z|, `-rolling + 1` stays in range)
+    add(rows=(-9223372036854775807, 0))
+    add(rows=(0, 9223372036854775807))
+    add(rows=(-9223372036854775807, 9223372036854775807))
+    add(range_=(-9223372036854775807, None))
+    add(rolling=9223372036854775807)
+    # the rejection of an empty range comes first, whatever else is given; `rows` is looked at before `range`
+    add(rows=(1, 0), expanding=True)
+    add(rows=(1, 0), rolling=2)
+    add(range_=(2, -1), expanding=True)
+    add(range_=(2, -1), rolling=3)
+    add(rows=(2, 1), range_=(1, 0))
+    add(rows=(-1, 1), range_=(1, 0))
+    add(rows=(0, -1), range_=(1, 0))
+    # the spelling of the default, written out: "argument not given"
+    add(rows=(0, -1), range_=(0, -1))
+    add(rows=(0, -1), range_=(-1, 1))
+    add(rows=(0, -1), rolling=2)
+    add(range_=(0, -1), expanding=True)
     add(rows=(-2, None), paren=False)
     add(rows=(-2, -1), paren=False)
     add(range_=(-1, None), paren=False)
@@ -97,8 +119,8 @@ def run(ck, supports_table=None):
             cases.append({"src": src, "args": None, "sorted": sorted_, "grouped": False, "fn": fsql, "supports": sup, "atxt": "(no window)"})
     exprs = []
     for c in cases:
-        f3 = "no_window" if c["args"] is None else "(frame_of %s)" % c["args"]
-        exprs.append("(frame3_data %s, show_frame (emit_frame %s %s %s))" % (f3, "true" if c["supports"] else "false", "true" if c["sorted"] else "false", f3))
+        r = "(WFrame no_window)" if c["args"] is None else "(frame_of %s)" % c["args"]
+        exprs.append("(wresult_data %s, show_frame (emit_frame %s %s (wresult_frame %s)))" % (r, "true" if c["supports"] else "false", "true" if c["sorted"] else "false", r))
     try:
         mv = coq_eval(HEADER, exprs)
     except RuntimeError:
@@ -108,8 +130,19 @@ def run(ck, supports_table=None):
     for c, m, a, q in zip(cases, mv, comp, rqs):
         ck.count("frame-corr", c["src"])
         ck.stat("frame-corr", "fn:" + c["fn"])
-        kind, ms, me, mtext = m
+        code, (kind, ms, me), mtext = m
         mtext = "".join(chr(x) for x in mtext)
+        if code != 0:
+            # the model says: rejected.  Both entry points must report exactly that error, and nothing else
+            ck.stat("frame-corr", "rejected:%s" % ("rows" if code == 1 else "range"))
+            want_reason = EMPTY_RANGE_MSG % ("rows" if code == 1 else "range")
+            for what, ans in (("compile", a), ("pl_to_rq", q)):
+                reasons = [e.get("reason") for e in ans.get("err", [])] if "err" in ans else None
+                if reasons != [want_reason]:
+                    ck.stat("frame-corr", "disagreement:rejection")
+                    ck.disagreement("the model of the `window` transform rejects the arguments (%s), the implementation (%s) answers %s: %s" % (
+                        want_reason, what, json.dumps(ans)[:200], c["src"]), {"src": c["src"], "impl": ans, "model": want_reason}, lambda _c: None)
+            continue
         want_rq = ("Rows" if kind == 0 else "Range", ms[0] if ms else None, me[0] if me else None)
         # --- RQ frame
         got_rq = None
@@ -128,6 +161,8 @@ def run(ck, supports_table=None):
             ck.disagreement("window frame in RQ differs from the model of the `window` transform: %s: impl %r, model %r (partition %d, sort %d expected)" % (
                 c["src"], got_rq, want_rq, 1 if c["grouped"] else 0, 1 if c["sorted"] else 0),
                 {"src": c["src"], "impl_rq_window": got_rq, "model": list(want_rq), "rq": q if "ok" not in q else None}, lambda _c: None)
+        elif c["atxt"] in ("rows:0..(-1)", "range:0..(-1)"):
+            ck.stat("frame-corr", "explicit-default-accepted")
         # --- emitted OVER text
         got = None
         if "ok" in a:
@@ -144,3 +179,220 @@ def run(ck, supports_table=None):
             ck.disagreement("OVER clause differs from the model: %s: impl %r, model %r" % (c["src"], got, want),
                             {"src": c["src"], "impl": a, "model_over": want}, lambda _c: None)
     ck.coverage["frame_corr_exhaustive"] = {"argument_sets": len(args), "cases": len(cases)}
+
+
+# ------------------------------------------------------------------ partition / frame scoping (flatten.rs)
+BYS = ["g", "a"]          # columns both t and u have
+
+
+class _Tags:
+    def __init__(self):
+        self.n = 0
+
+    def next(self):
+        self.n += 1
+        return self.n
+
+
+def gen_scope(rng, depth, tags, budget):
+    """a random list of sitems: ("col", tag) | ("group", by, body) | ("window", (a, b), body) | ("sub", body)"""
+    out = []
+    for _ in range(rng.randint(1, 3)):
+        if budget[0] <= 0:
+            break
+        k = rng.random()
+        if depth <= 0 or k < 0.4:
+            budget[0] -= 1
+            out.append(("col", tags.next()))
+        elif k < 0.62:
+            out.append(("group", rng.randrange(len(BYS)), gen_scope(rng, depth - 1, tags, budget) or [("col", tags.next())]))
+        elif k < 0.86:
+            a, b = rng.choice([(-2, 0), (-1, 1), (None, 0), (0, None), (0, 2), (-2, -1), (1, 2), (None, None), (0, 0)])
+            out.append(("window", (a, b), gen_scope(rng, depth - 1, tags, budget) or [("col", tags.next())]))
+        else:
+            out.append(("sub", gen_scope(rng, depth - 1, tags, budget) or [("col", tags.next())]))
+    return out
+
+
+def ice3870_class(items, head=False):
+    """F55: a `group` that is reached inside the body of another `group` before any step of that body has produced
+    columns (only window heads in between).  Returns (in class, is the position behind `items` still such a head)"""
+    for it in items:
+        if it[0] == "col" or it[0] == "sub":
+            if it[0] == "sub" and ice3870_class(it[1], False)[0]:
+                return True, False
+            head = False
+        elif it[0] == "group":
+            if head:
+                return True, False
+            if ice3870_class(it[2], True)[0]:
+                return True, False
+            head = False
+        else:
+            found, head = ice3870_class(it[2], head)
+            if found:
+                return True, False
+    return False, head
+
+
+def classify_scope(case):
+    errs = (case.get("impl") or {}).get("err") or []
+    if len(errs) == 1 and "internal compiler error" in errs[0].get("reason", "") and "/3870" in errs[0].get("reason", "") and case.get("ice_class"):
+        return "F55-group-at-head-of-group-body-internal-error"
+    return None
+
+
+def scope_tags(items):
+    out = []
+    for it in items:
+        if it[0] == "col":
+            out.append(it[1])
+        else:
+            out += scope_tags(it[-1])
+    return out
+
+
+def scope_prql(items, subs):
+    parts = []
+    for it in items:
+        if it[0] == "col":
+            parts.append("derive {x%d = sum id}" % it[1])
+        elif it[0] == "group":
+            parts.append("group {%s} (%s)" % (BYS[it[1]], scope_prql(it[2], subs)))
+        elif it[0] == "window":
+            parts.append("window rows:%s..%s (%s)" % (rb(it[1][0], True), rb(it[1][1], True), scope_prql(it[2], subs)))
+        else:
+            subs[0] += 1
+            k = "k%d" % subs[0]
+            inner = scope_prql(it[1], subs)
+            parts.append("join side:left (from u | %s | select {%s = id, %s}) (id == %s)" % (inner, k, ", ".join("x%d" % t for t in scope_tags(it[1])), k))
+    return " | ".join(parts)
+
+
+def scope_coq(items):
+    out = []
+    for it in items:
+        if it[0] == "col":
+            out.append("SCol %d%%N" % it[1])
+        elif it[0] == "group":
+            out.append("SGroup %d%%N %s" % (it[1], scope_coq(it[2])))
+        elif it[0] == "window":
+            out.append("SWindow (KRows, %s, %s) %s" % (coq_oz(it[1][0]), coq_oz(it[1][1]), scope_coq(it[2])))
+        else:
+            out.append("SSub %s" % scope_coq(it[1]))
+    return "[" + "; ".join(out) + "]"
+
+
+def rq_windows(rq):
+    """{column name: (partition column names, (kind, start, end))} of every windowed Compute of every relation of an RQ query"""
+    out = {}
+    dup = []
+
+    def lit(e):
+        return None if e is None else e["kind"]["Literal"]["Integer"]
+
+    def relation(rel):
+        if "Pipeline" not in rel["kind"]:
+            return
+        pipe = rel["kind"]["Pipeline"]
+        names = {}
+        sel = [t["Select"] for t in pipe if "Select" in t]
+        if sel:
+            for col, cid in zip(rel["columns"], sel[-1]):
+                if isinstance(col, dict) and col.get("Single"):
+                    names.setdefault(cid, col["Single"])
+        src = {}
+        for t in pipe:
+            cols = t["From"]["columns"] if "From" in t else t["Join"]["with"]["columns"] if "Join" in t else []
+            for col, cid in cols:
+                if isinstance(col, dict) and col.get("Single"):
+                    src[cid] = col["Single"]
+        for t in pipe:
+            if "Compute" in t and t["Compute"].get("window"):
+                w = t["Compute"]["window"]
+                nm = names.get(t["Compute"]["id"])
+                val = ([src.get(c, "?%d" % c) for c in w["partition"]], (w["frame"]["kind"], lit(w["frame"]["range"]["start"]), lit(w["frame"]["range"]["end"])), len(w["sort"]))
+                if nm in out or nm is None:
+                    dup.append(nm)
+                out[nm] = val
+            if "Loop" in t:
+                relation({"kind": {"Pipeline": t["Loop"]}, "columns": []})
+    relation(rq["relation"])
+    for t in rq["tables"]:
+        relation(t["relation"])
+    return out, dup
+
+
+SCOPE_DIRECTED = [
+    # the example of Props/C04.v:  group g (window rows:-1..0 (x1 | group a (x2) | x3) | x4) | x5
+    [("group", 0, [("window", (-1, 0), [("col", 1), ("group", 1, [("col", 2)]), ("col", 3)]), ("col", 4)]), ("col", 5)],
+    [("window", (-1, 0), [("window", (0, 1), [("col", 1)]), ("col", 2)]), ("col", 3)],
+    [("group", 0, [("group", 1, [("col", 1)]), ("col", 2)]), ("col", 3)],
+    [("window", (-2, 0), [("group", 0, [("col", 1), ("window", (0, 0), [("col", 2)]), ("col", 3)]), ("col", 4)])],
+    [("group", 0, [("sub", [("col", 1), ("group", 1, [("col", 2)])]), ("col", 3)])],
+    [("window", (None, 0), [("sub", [("col", 1), ("window", (0, 2), [("col", 2)]), ("col", 3)]), ("col", 4)]), ("col", 5)],
+    [("group", 1, [("window", (-1, 1), [("sub", [("col", 1)]), ("col", 2)])]), ("sub", [("group", 0, [("col", 3)])]), ("col", 4)],
+    [("sub", [("sub", [("window", (1, 2), [("col", 1)]), ("col", 2)]), ("col", 3)]), ("col", 4)],
+    # F55: a group at the head of a group body (directly, or behind a window head)
+    [("group", 1, [("group", 0, [("col", 1)]), ("col", 2)])],
+    [("group", 1, [("window", (0, 0), [("group", 0, [("col", 1)])])]), ("col", 2)],
+]
+
+
+def run_scope(ck):
+    rng = ck.rng
+    progs = [list(p) for p in SCOPE_DIRECTED]
+    for _ in range(ck.n(150, 1200)):
+        items = gen_scope(rng, 3, _Tags(), [8])
+        while ice3870_class(items)[0] and rng.random() < 0.9:        # keep a few of the F55 class, no more
+            items = gen_scope(rng, 3, _Tags(), [8])
+        progs.append(items)
+    cases = []
+    for items in progs:
+        src = "from t | " + scope_prql(items, [0])
+        cases.append({"src": src, "items": items, "coq": scope_coq(items)})
+    exprs = ["(map scope_out_data (fst (scope_run flatten_policy %s fstate0)), map (fun o : scope_out => show_frame (emit_frame true false (snd o))) (fst (scope_run flatten_policy %s fstate0)))" % (c["coq"], c["coq"]) for c in cases]
+    try:
+        mv = coq_eval(HEADER, exprs)
+    except RuntimeError:
+        mv = coq_eval(HEADER, exprs, shards=4)
+    rqs = harness("rq", [{"src": c["src"]} for c in cases])
+    comp = harness("compile", [{"src": c["src"], "target": "sql.sqlite"} for c in cases])
+    for c, (mdata, mtexts), q, a in zip(cases, mv, rqs, comp):
+        ck.count("scope-corr", c["src"])
+        depth = 0
+        stack = [(c["items"], 1)]
+        while stack:
+            its, d = stack.pop()
+            depth = max(depth, d)
+            for it in its:
+                if it[0] != "col":
+                    ck.stat("scope-corr", "nest:%s@%d" % (it[0], d))
+                    stack.append((it[-1], d + 1))
+        ck.stat("scope-corr", "depth:%d" % depth)
+        want = {}
+        for (tag, by, (kind, ms, me)), txt in zip(mdata, mtexts):
+            want["x%d" % tag] = ([BYS[b] for b in by], ("Rows" if kind == 0 else "Range", ms[0] if ms else None, me[0] if me else None), "".join(chr(x) for x in txt))
+        if "ok" not in q:
+            got = ck.disagreement("nested group / window program rejected by pl_to_rq: %s: %s" % (c["src"], json.dumps(q)[:200]),
+                                  {"src": c["src"], "impl": q, "ice_class": ice3870_class(c["items"])[0]}, classify_scope)
+            ck.stat("scope-corr", "disagreement:" + (got or "rejected"))
+            continue
+        got, dup = rq_windows(q["ok"])
+        got3 = {k: (v[0], v[1]) for k, v in got.items()}
+        if dup or got3 != {k: (v[0], v[1]) for k, v in want.items()} or any(v[2] != 0 for v in got.values()):
+            ck.stat("scope-corr", "disagreement:rq-window")
+            ck.disagreement("partition / frame of RQ Compute.window differ from the scoping model (flatten.rs): %s: impl %r, model %r" % (c["src"], sorted(got.items()), sorted((k, v[:2]) for k, v in want.items())),
+                            {"src": c["src"], "impl": sorted(got.items()), "model": sorted((k, list(v[:2])) for k, v in want.items())}, lambda _c: None)
+            continue
+        # the emitted OVER (...) of every column
+        gsql = {}
+        if "ok" in a:
+            for m in re.finditer(r"SUM\((?:\w+\.)?id\) OVER \(([^()]*)\)(?:, 0\))? AS (x\d+)", a["ok"]):
+                gsql[m.group(2)] = re.sub(r"\b\w+\.(\w+)", r"\1", m.group(1)).strip()
+        wsql = {k: (("PARTITION BY %s " % ", ".join(v[0]) if v[0] else "") + v[2]).strip() for k, v in want.items()}
+        if gsql != wsql:
+            ck.stat("scope-corr", "disagreement:over-text")
+            ck.disagreement("OVER clauses of a nested group / window program differ from the scoping model: %s: impl %r (%s), model %r" % (c["src"], sorted(gsql.items()), json.dumps(a)[:300], sorted(wsql.items())),
+                            {"src": c["src"], "impl": a, "model": sorted(wsql.items())}, lambda _c: None)
+    ck.coverage["scope_corr"] = {"cases": len(cases), "directed": len(SCOPE_DIRECTED)}
